@@ -89,6 +89,9 @@ def checkC06 (trace : List (Rec × List Rec)) : Option String := Id.run do
       if r.ints "scounts" != wantCounts then return some s!"unit {t}: status counts {r.ints "scounts"} are not the numbers {wantCounts} of attached instances per status type"
       let wantFlags : List Int := ([1, 100, 101, 103].filter fun f => hasFlag cat l f).map Int.ofNat
       if r.ints "flags" != wantFlags then return some s!"unit {t}: behaviour flags {r.ints "flags"} are not those {wantFlags} of the attached instances' shapes"
+      let wantAny := ModAdapter.anyFlagQueries fun fs => fs.any (hasFlag cat l)
+      if r.ints "anyflag" != wantAny then return some s!"unit {t}: a query for several behaviour flags on the stats snapshot does not answer 'has at least one of them' (flags of the attached shapes: {wantFlags})"
+      if r.ints "mgrflag" != wantAny then return some s!"unit {t}: a query for several behaviour flags on the manager does not answer 'has at least one of them' (flags of the attached shapes: {wantFlags})"
       for (f, x) in ([100, 101, 103] : List Nat).zip (r.flts "dres") do
         if !close x (debuffRes (dresTotal (ModAdapter.baseDres t) l) [f]) then return some s!"unit {t}: resistance to flag {f} is {x}, not max(0, own + Σ attached) = {debuffRes (dresTotal (ModAdapter.baseDres t) l) [f]}"
       let out := propTotal base l 5 * (1 + atkpct) + (propTotal base l 7 + propTotal base l 8)
